@@ -85,7 +85,9 @@ func (le *luaEncoder) encodeString(writer io.Writer, node *CandidateNode) error 
 	switch node.Style {
 	case LiteralStyle, FoldedStyle, FlowStyle:
 		for i := 0; i < 10; i++ {
-			if !strings.Contains(node.Value, "]"+strings.Repeat("=", i)+"]") {
+			// the closing bracket must not show up early: neither inside the value nor
+			// made of the end of the value and the start of the closing bracket itself
+			if !strings.Contains(node.Value+"]"+strings.Repeat("=", i), "]"+strings.Repeat("=", i)+"]") {
 				err := writeString(writer, "["+strings.Repeat("=", i)+"[\n")
 				if err != nil {
 					return err
